@@ -81,6 +81,10 @@ try:
 except Exception:
   pass
 meta["what_it_needs"] = old.get("what_it_needs", "")
+# earlier evaluations (before checks were strengthened) are kept
+meta["history"] = old.get("history", [])
+if old.get("checks"):
+  meta["history"].append({"repo_head": old.get("repo_head") or old.get("worktree_head"), "checks": {p: {"violation": c.get("violation"), "no_failing_input": c.get("no_failing_input")} for p, c in old["checks"].items()}})
 meta["kept"] = bool(rc0 == 0 and rc1 != 0 and not meta["stable_tests_broken"])
 json.dump(meta, open(f"{dst}/meta.json", "w"), indent=1)
 print(json.dumps({k: meta[k] for k in ("seed", "demo_on_repo_rc", "demo_on_change_rc", "stable_tests_broken", "kept")}), {p: (c["violation"], c["no_failing_input"]) for p, c in meta["checks"].items()}, flush=True)
